@@ -26,7 +26,7 @@ pub fn checks() -> Vec<Check> {
             id: "C39",
             title: "Iterative lookups are bounded, terminate and return the closest responders",
             level: Level::Exploration,
-            rule: "A random peer graph (8..40 peers; each answers with a seeded list of closer peers, fails, or stays silent) is searched by the real ClosestPeersIter, ClosestDisjointPeersIter and FixedPeersIter (parallelism 1..4, num_results 1..6, peer timeout 10 s). The harness plays the query pool: it calls next(now), records the peers handed out, and in a seeded order delivers successes (also late ones after a timeout), failures and time steps. Always: requests in flight <= max(num_results, parallelism) (plain), <= parallelism (fixed), <= parallelism * max(num_results, parallelism) (disjoint: one plain iterator per path); the run reaches Finished within a step budget once every outstanding request is answered or timed out; results contain only peers whose success was delivered, in increasing distance to the target, at most num_results of them (plain iterator; the disjoint iterator documents that it returns the union of its paths' results, so its bound is parallelism * num_results). When the plain iterator finishes on its own, every peer it learned of that is closer than the farthest returned peer (all learned peers if fewer than num_results were returned) has been contacted and resolved",
+            rule: "A random peer graph (8..40 peers; each answers with a seeded list of closer peers, fails, or stays silent) is searched by the real ClosestPeersIter, ClosestDisjointPeersIter and FixedPeersIter (parallelism 1..4, num_results 1..6, peer timeout 10 s; the fixed iterator's caller-supplied list may name a peer several times and every peer is still handed out at most once). The harness plays the query pool: it calls next(now), records the peers handed out, and in a seeded order delivers successes (also late ones after a timeout), failures and time steps. Always: requests in flight <= max(num_results, parallelism) (plain), <= parallelism (fixed), <= parallelism * max(num_results, parallelism) (disjoint: one plain iterator per path); the run reaches Finished within a step budget once every outstanding request is answered or timed out; results contain only peers whose success was delivered, in increasing distance to the target, at most num_results of them (plain iterator; the disjoint iterator documents that it returns the union of its paths' results, so its bound is parallelism * num_results). When the plain iterator finishes on its own, every peer it learned of that is closer than the farthest returned peer (all learned peers if fewer than num_results were returned) has been contacted and resolved",
             assumptions: &["the in-flight bound for the disjoint iterator is the product form, because each of its `parallelism` paths is a plain iterator configured with the same parallelism (documented behaviour of this code base)"],
             real: &["kad::query::peers::{closest::ClosestPeersIter, closest::disjoint::ClosestDisjointPeersIter, fixed::FixedPeersIter}"],
             stub: &["query pool, network and peers -> harness", "clock -> virtual"],
@@ -496,20 +496,31 @@ fn disjoint_iter() -> SimResult {
 
 fn fixed_iter() -> SimResult {
     let n = 1 + choose(12);
-    let peers: Vec<PeerId> = (0..n).map(|_| peer()).collect();
+    let distinct: Vec<PeerId> = (0..n).map(|_| peer()).collect();
+    // caller-supplied lists (put_record_to, get_providers follow-ups) may name a peer more than once
+    let mut peers = distinct.clone();
+    if choose(3) == 0 {
+        for _ in 0..1 + choose(4) {
+            let dup = distinct[choose(n)];
+            peers.insert(choose(peers.len() + 1), dup);
+        }
+        probe("fixed_list_with_repeats");
+    }
     let parallelism = 1 + choose(4);
     let mut it = kv::Fixed::new(peers.clone(), parallelism);
+    let mut handed: BTreeSet<PeerId> = BTreeSet::new();
     let mut in_flight: Vec<PeerId> = vec![];
     let mut succeeded: BTreeSet<PeerId> = BTreeSet::new();
     let mut finished = false;
-    for _ in 0..10 * n + 50 {
+    for _ in 0..10 * peers.len() + 50 {
         match it.next() {
             kv::IterState::Finished => {
                 finished = true;
                 break;
             }
             kv::IterState::Waiting(Some(p)) => {
-                ensure!(peers.contains(&p) && !in_flight.contains(&p), "C39/peer-contacted-twice", "the fixed iterator handed out an unknown or repeated peer");
+                ensure!(peers.contains(&p) && !in_flight.contains(&p), "C39/peer-contacted-twice", "the fixed iterator handed out an unknown peer or one whose request is still in flight");
+                ensure!(handed.insert(p), "C39/peer-contacted-twice", "the fixed iterator handed out a peer a second time (list with {} entries, {n} distinct)", peers.len());
                 in_flight.push(p);
             }
             _ => {
